@@ -38,6 +38,12 @@ pub struct GenCfg {
     pub excl_signed_relational: bool,
     pub excl_short_general_shift: bool,
     pub excl_eq_rel_chain: bool,
+    /// C12 profile: calls also inside conditions, arguments, loop headers (semantics are not judged there)
+    pub calls_everywhere: bool,
+    pub interrupt_handler: bool,
+    pub prototypes: bool,
+    /// C18 profile: explicit hardware statements are frequent
+    pub hw_dense: bool,
 }
 
 impl Default for GenCfg {
@@ -68,6 +74,10 @@ impl Default for GenCfg {
             excl_signed_relational: true,
             excl_short_general_shift: true,
             excl_eq_rel_chain: true,
+            calls_everywhere: false,
+            interrupt_handler: false,
+            prototypes: false,
+            hw_dense: false,
         }
     }
 }
@@ -102,6 +112,7 @@ pub struct Gen<'a> {
     sarrs: Vec<VarId>, // short arrays
     ptrs: Vec<VarId>,
     hw: Vec<VarId>,
+    sink: Option<VarId>,
     callable: Vec<usize>,
     calls_in_expr: usize,
     asm_n: usize,
@@ -131,6 +142,7 @@ impl<'a> Gen<'a> {
             sarrs: vec![],
             ptrs: vec![],
             hw: vec![],
+            sink: None,
             callable: vec![],
             calls_in_expr: 0,
             asm_n: 0,
@@ -214,7 +226,7 @@ impl<'a> Gen<'a> {
                 self.sarrs.push(v);
             }
         }
-        if self.cfg.ptrs && !self.arrs.is_empty() && self.rng.chance(1, 2) {
+        if self.cfg.ptrs && !self.ptr_targets().is_empty() && self.rng.chance(1, 2) {
             let v = self.add_var("p0".into(), VarKind::Ptr, MemClass::Zp, Scope::Global);
             self.ptrs.push(v);
         }
@@ -228,7 +240,15 @@ impl<'a> Gen<'a> {
                 let v = self.add_var(format!("HW{}", i), VarKind::HwReg(*a), MemClass::Zp, Scope::Global);
                 self.hw.push(v);
             }
+            // receives ordinary reads of the strobe / store targets; never read, never compared
+            self.sink = Some(self.add_var("sink".into(), VarKind::Scalar(Ty::U8), MemClass::Zp, Scope::Global));
         }
+    }
+
+    /// arrays a pointer may be given: accesses through a pointer cannot choose between the read
+    /// and the write port of cartridge RAM (known finding pointer_into_split_port_ram)
+    fn ptr_targets(&self) -> Vec<VarId> {
+        self.arrs.iter().cloned().filter(|a| self.p.vars[*a].mem == MemClass::Zp).collect()
     }
 
     fn is_const(&self, v: VarId) -> bool {
@@ -533,10 +553,10 @@ impl<'a> Gen<'a> {
             self.st_scratch_ok = sk;
             return Expr::Cond(Box::new(c), Box::new(a), Box::new(b));
         }
-        if r < 96 && self.cfg.calls && !self.callable.is_empty() && !self.st_in_cond && !self.st_no_calls {
+        if r < 96 && self.cfg.calls && !self.callable.is_empty() && ((!self.st_in_cond && !self.st_no_calls) || self.cfg.calls_everywhere) {
             // one call per full expression: two calls are indeterminately sequenced in C and the
             // callees may touch the same globals
-            if self.calls_in_expr == 0 {
+            if self.calls_in_expr == 0 || self.cfg.calls_everywhere {
                 if let Some(c) = self.call_expr(true) {
                     return c;
                 }
@@ -563,7 +583,11 @@ impl<'a> Gen<'a> {
         for pv in params {
             match self.p.vars[pv].kind {
                 VarKind::Ptr => {
-                    let a = *self.rng.pick(&self.arrs.clone());
+                    let t = self.ptr_targets();
+                    if t.is_empty() {
+                        return None;
+                    }
+                    let a = *self.rng.pick(&t);
                     args.push(Expr::AddrOf(a));
                 }
                 VarKind::Scalar(t) if t.bits() == 16 => {
@@ -1085,7 +1109,7 @@ impl<'a> Gen<'a> {
         }
         self.fc.top_level = was_top;
         self.fc.locals.truncate(saved_locals);
-        if v.len() == 1 && self.rng.chance(1, 2) && !matches!(v[0], Stmt::Decl(..) | Stmt::If(..)) {
+        if v.len() == 1 && self.rng.chance(1, 2) && !matches!(v[0], Stmt::Decl(..) | Stmt::If(..) | Stmt::Block(..)) {
             v.pop().unwrap()
         } else {
             Stmt::Block(v)
@@ -1380,6 +1404,9 @@ impl<'a> Gen<'a> {
     }
 
     fn simple_stmt(&mut self) -> Stmt {
+        if self.cfg.hw_dense && !self.hw.is_empty() && self.rng.chance(2, 5) {
+            return self.hw_stmt();
+        }
         let r = self.rng.below(100);
         if r < 70 {
             return self.assign_stmt();
@@ -1413,9 +1440,9 @@ impl<'a> Gen<'a> {
         if r < 92 && self.cfg.hw && !self.hw.is_empty() {
             return self.hw_stmt();
         }
-        if r < 95 && !self.ptrs.is_empty() && !self.arrs.is_empty() {
+        if r < 95 && !self.ptrs.is_empty() && !self.ptr_targets().is_empty() {
             let p = self.ptrs[0];
-            let a = *self.rng.pick(&self.arrs.clone());
+            let a = *self.rng.pick(&self.ptr_targets());
             return Stmt::Expr(Expr::Assign(LV::Var(p), Box::new(Expr::AddrOf(a))));
         }
         if r < 97 {
@@ -1425,28 +1452,53 @@ impl<'a> Gen<'a> {
     }
 
     pub fn hw_stmt(&mut self) -> Stmt {
-        let h = *self.rng.pick(&self.hw.clone());
-        match self.rng.below(7) {
-            0 => Stmt::Strobe(h),
-            1 => Stmt::Load(Expr::Lv(LV::Deref(h))),
-            2 => Stmt::Store(LV::Deref(h)),
+        // One access kind per register belongs to the explicit statements alone, so that their
+        // executions can be counted exactly among ordinary accesses to the same operands:
+        //   hw[0]: reads are load() only; ordinary assignments write it
+        //   hw[1]: ordinary reads and writes only
+        //   hw[2..]: writes are strobe() / store() only; ordinary assignments read them into
+        //            `sink` (what they read is the accumulator of an earlier store: not modelled)
+        self.st_reset();
+        let wo = *self.rng.pick(&self.hw[2..].to_vec());
+        match self.rng.below(11) {
+            0 => Stmt::Strobe(wo),
+            1 => Stmt::Load(Expr::Lv(LV::Deref(self.hw[0]))),
+            2 => Stmt::Store(LV::Deref(wo)),
             3 => {
                 self.asm_n += 1;
                 Stmt::Asm(format!("NOP ;@I{}", self.asm_n), Some(1))
             }
             4 => {
+                // csleep bracketed by two markers so that its cycles can be measured in context
                 let n = *self.rng.pick(&[2, 3, 4, 5, 6, 7, 8, 9, 10]);
-                Stmt::CSleep(n)
+                self.asm_n += 2;
+                Stmt::Block(vec![
+                    Stmt::Asm(format!("NOP ;@I{}", self.asm_n - 1), Some(1)),
+                    Stmt::CSleep(n),
+                    Stmt::Asm(format!("NOP ;@I{}", self.asm_n), Some(1)),
+                ])
             }
-            5 => {
-                // ordinary assignment to the same hardware operand
+            5 | 6 => {
+                // ordinary write of hw[0] / hw[1]
+                let t = if self.rng.chance(1, 2) { self.hw[0] } else { self.hw[1] };
+                self.st_top = false;
                 let e = self.leaf8();
-                Stmt::Expr(Expr::Assign(LV::Deref(h), Box::new(e)))
+                Stmt::Expr(Expr::Assign(LV::Deref(t), Box::new(e)))
+            }
+            7 => {
+                // load of an ordinary variable
+                let s = self.scalars8(false);
+                let v = *self.rng.pick(&s);
+                Stmt::Load(Expr::Lv(LV::Var(v)))
+            }
+            8 => {
+                // ordinary read of a strobe / store target just before or after it is strobed
+                Stmt::Expr(Expr::Assign(LV::Var(self.sink.unwrap()), Box::new(Expr::Lv(LV::Deref(wo)))))
             }
             _ => {
                 let l = self.dest8();
                 self.note_write(&l, None);
-                Stmt::Expr(Expr::Assign(l, Box::new(Expr::Lv(LV::Deref(h)))))
+                Stmt::Expr(Expr::Assign(l, Box::new(Expr::Lv(LV::Deref(self.hw[1])))))
             }
         }
     }
@@ -1471,7 +1523,7 @@ impl<'a> Gen<'a> {
         if !is_main {
             let np = self.rng.range(0, 2) as usize;
             for i in 0..np {
-                let kind = if self.cfg.ptrs && !self.arrs.is_empty() && self.rng.chance(1, 8) {
+                let kind = if self.cfg.ptrs && !self.ptr_targets().is_empty() && self.rng.chance(1, 8) {
                     VarKind::Ptr
                 } else if self.cfg.shorts && self.rng.chance(1, 8) {
                     VarKind::Scalar(Ty::I16)
@@ -1493,7 +1545,7 @@ impl<'a> Gen<'a> {
         if is_main {
             // pointers are given a target first
             for p in self.ptrs.clone() {
-                let a = *self.rng.pick(&self.arrs.clone());
+                let a = *self.rng.pick(&self.ptr_targets());
                 body.push(Stmt::Expr(Expr::Assign(LV::Var(p), Box::new(Expr::AddrOf(a)))));
             }
         }
@@ -1573,13 +1625,43 @@ impl<'a> Gen<'a> {
         let nf = self.rng.range(0, self.cfg.max_funcs as i64 - 1) as usize;
         let nf = if self.cfg.calls { nf } else { 0 };
         for i in 0..nf {
-            let f = self.function(i, &format!("f{}", i), false);
+            let mut f = self.function(i, &format!("f{}", i), false);
+            if self.cfg.prototypes && self.rng.chance(1, 3) {
+                f.proto_first = true;
+            }
             self.p.funcs.push(f);
-            self.callable.push(i);
+            // a function that is only reachable through others, or not at all, stays possible:
+            // not every function becomes callable from everywhere
+            if !(self.cfg.calls_everywhere && self.rng.chance(1, 6)) {
+                self.callable.push(i);
+            }
         }
-        let m = self.function(nf, "main", true);
+        let mut nfun = nf;
+        if self.cfg.interrupt_handler && self.rng.chance(1, 2) {
+            // a small handler: touches a global and possibly calls a (non-inline) function
+            let mut body = vec![Stmt::Expr(Expr::IncDec { lv: LV::Var(self.g8[0]), post: true, inc: true })];
+            let cands: Vec<usize> = self.callable.iter().cloned().filter(|f| self.p.funcs[*f].params.is_empty()).collect();
+            if !cands.is_empty() && self.rng.chance(1, 2) {
+                let f = *self.rng.pick(&cands);
+                body.push(Stmt::Expr(Expr::Call(f, vec![])));
+            }
+            self.p.funcs.push(Func { name: "nmi".into(), ret: None, params: vec![], body, inline: false, interrupt: true, proto_first: false });
+            nfun += 1;
+        }
+        let m = self.function(nfun, "main", true);
         self.p.funcs.push(m);
         self.p
+    }
+
+    fn has_return(s: &Stmt) -> bool {
+        match s {
+            Stmt::Return(_) => true,
+            Stmt::If(_, t, e) => Self::has_return(t) || e.as_ref().map(|e| Self::has_return(e)).unwrap_or(false),
+            Stmt::Block(v) => v.iter().any(Self::has_return),
+            Stmt::While(_, b) | Stmt::DoWhile(b, _) | Stmt::For(_, _, _, b) | Stmt::Labeled(_, b) => Self::has_return(b),
+            Stmt::Switch(_, c, d) => c.iter().any(|c| c.1.iter().any(Self::has_return)) || d.as_ref().map(|d| d.iter().any(Self::has_return)).unwrap_or(false),
+            _ => false,
+        }
     }
 }
 
